@@ -735,7 +735,11 @@ func (rd *storeRound) readRacingDestruction() {
 	rd.maybePreload(0)
 	early := rng.IntN(2) == 0
 	destroy := rng.IntN(3) != 0
-	rd.variant = fmt.Sprintf("read-linearized-at-arrival=%v handle-destroyed-before-read-returns=%v", early, destroy)
+	readOutcome := outOK
+	if rng.IntN(4) == 0 {
+		readOutcome = outFail
+	}
+	rd.variant = fmt.Sprintf("read-linearized-at-arrival=%v handle-destroyed-before-read-returns=%v read=%s", early, destroy, readOutcome)
 
 	gr := rd.gateGet(A, early)
 	p1 := rd.goGet(1, A)
@@ -750,10 +754,12 @@ func (rd *storeRound) readRacingDestruction() {
 	} else {
 		rd.sit("get-racing-handle-creation")
 	}
-	rd.releaseGate(gr, A, outOK)
+	rd.releaseGate(gr, A, readOutcome)
 	if hh, err := p1.wait(rd); err == nil && hh != nil {
 		hh.view(true)
 		hh.release()
+	} else {
+		rd.sit("racing-read-failed")
 	}
 }
 
